@@ -172,6 +172,20 @@ class Fault(object):
     self.conv_base = None
 
 
+def _thread_key():
+  """Identity of the calling thread for fault targeting: the simulated thread
+  (stable), not the OS thread identifier - the OS hands the identifier of an
+  ended thread to a new one whenever it likes, which made a fault aimed at an
+  ended thread fire in its successor in some executions and not in others."""
+  from dsim import boot
+  sim = boot.CURRENT_SIM
+  if sim is not None:
+    t = sim.current_thread()
+    if t is not None:
+      return ('sim', t.tid)
+  return ('os', _thread.get_ident())
+
+
 class Injector(object):
 
   def __init__(self, scope_keys=None):
@@ -233,7 +247,7 @@ class Injector(object):
       ident = _thread.get_ident()
       if faults and (inj.depth.get(ident) or not inj.scoped):
         for f in faults:
-          if f.active and not f.fired and (f.ident is None or f.ident == ident):
+          if f.active and not f.fired and (f.ident is None or f.ident == _thread_key()):
             if f.conv_k is not None:
               if f.conv_base is None:
                 f.conv_base = inj.convs.get(ident, 0) - 1
